@@ -103,6 +103,8 @@ func vcConcretise(v vcVec, k int, ownUfrag string) vcConcrete {
 			val = ownUfrag
 		case "FOREIGN":
 			val = vcForeignUfrag
+		case "UTF8": // a value that ends in a character of more than one byte
+			val = "caf\u00e9"
 		}
 		c.exts = append(c.exts, ice.CandidateExtension{Key: e[0], Value: val})
 	}
